@@ -9,7 +9,7 @@ Proof. split; reflexivity. Qed.
 Print Assumptions C17_pin_shapes.
 
 Lemma C17_pin_radii :
-  radii = [("C"%string, 3 # 5); ("N"%string, 27 # 50); ("O"%string, 53 # 100); ("P"%string, 47 # 50)] /\ molprobity_margin = 1 # 2.
+  radii = [("C"%string, (3 # 5)%Q); ("N"%string, (27 # 50)%Q); ("O"%string, (53 # 100)%Q); ("P"%string, (47 # 50)%Q)] /\ molprobity_margin = (1 # 2)%Q.
 Proof. split; reflexivity. Qed.
 Print Assumptions C17_pin_radii.
 
